@@ -23,9 +23,14 @@ ASSUMPTIONS = ["generated kerning / mark positioning between remaining glyphs is
 
 
 def design_checks(tier):
+    # SkipResolve: which of the three lists (argument, UFO lib, designspace lib) speaks for each entry point; the two must-fail
+    # configurations are the designs of seeded changes C13-f (layer lib consulted) and C13-g (instance keeps the UFO's list)
+    res = [dict(module="SkipResolve", cfg="SkipResolve.cfg", workers=2, timeout=120),
+           dict(module="SkipResolve", cfg="SkipResolve_layerlib.cfg", workers=2, timeout=120, expect_violation="ListedAreSkipped"),
+           dict(module="SkipResolve", cfg="SkipResolve_keepufo.cfg", workers=2, timeout=120, expect_violation="ListedAreSkipped")]
     if tier == "quick":
-        return [dict(module="FiltersMC", cfg="FiltersMC_skip.cfg", workers=8, timeout=300)]
-    return [dict(module="FiltersMC", cfg="FiltersMC_skipfull.cfg", workers=16, timeout=3000)]
+        return [dict(module="FiltersMC", cfg="FiltersMC_skip.cfg", workers=8, timeout=300)] + res
+    return [dict(module="FiltersMC", cfg="FiltersMC_skipfull.cfg", workers=16, timeout=3000)] + res
 
 
 def cases(tier, seed):
